@@ -1,6 +1,7 @@
 #!/usr/bin/env bash
-# Secondary sanitizer legs for the two reader-robustness properties (thorough tier only).
-#   tools/legs.sh <C10|C11>
+# Secondary sanitizer legs (thorough tier only).
+#   tools/legs.sh <ID>
+# ASan for every property; Miri for the properties that have a `miri-sample` generator (C10, C11, and the ones listed by `lvh gens`).
 # ASan: the quick-tier fault workload re-run on a nightly -Zsanitizer=address build of the harness (and of /repo's crates).
 # Miri: N interpreter-sized cases (`lvh one <ID> --gen miri-sample`) under `cargo +nightly miri run`, 16 at a time.
 # A sanitizer/UB report is a VIOLATION; a leg that cannot be built or run is INCONCLUSIVE (exit 0). Results are merged into the evidence file.
@@ -30,8 +31,15 @@ else
 fi
 rm -f "$LOG"
 
-# ---------------- Miri
-N=${VERIF_MIRI_CASES:-32}
+# ---------------- Miri (only the properties that have an interpreter-sized `miri-sample` generator)
+if ! ./target/verif/lvh gens "$ID" 2>/dev/null | grep -qx "miri-sample"; then
+  if [ -f "$EV" ] && [ "$EV" != "/dev/null" ]; then
+    tmp=$(mktemp); jq --argjson legs "$legs" '.coverage.sanitizer_legs = ((.coverage.sanitizer_legs // {}) + $legs)' "$EV" > "$tmp" && mv "$tmp" "$EV"
+  fi
+  exit $rc
+fi
+# 32 cases for the two reader properties (their own fault-mix generator), 16 of the aliased generator for the others
+case "$ID" in C10|C11) N=${VERIF_MIRI_CASES:-32};; *) N=${VERIF_MIRI_CASES:-16};; esac
 D=$(mktemp -d /dev/shm/lvh-miri.XXXXXX)
 export MIRIFLAGS="-Zmiri-disable-isolation -Zmiri-deterministic-floats"
 if cargo +nightly miri run --offline --target-dir target-miri -- one "$ID" --tier quick --seed "$SEED" --gen miri-sample --n 0 --out "$D/warm.json" >"$D/warm.log" 2>&1; then
